@@ -441,9 +441,9 @@ pub fn run(ctx: &mut Ctx) {
     ctx.rule = "for each of the five document shapes and each numeric field: a boundary-strategy value in a well-formed spelling (JSON integer, integral floats x.0 / xe0 / d.ddde+k / x0e-1, decimal string with/without leading zeros, 0x-hex in lower/upper/mixed case and with leading zeros), a malformed spelling (negative numbers and strings, fractions, inexact or too-large literals, 2^256 and above, empty, white space, separators, bad digits, Unicode digits, bool/array/object/null/absent for required fields), an exact-or-refuse literal (integral literals f64 cannot carry), or an unspecified spelling (+, 0b/0o, 0X, -0). Oracle: well-formed -> accepted and digest + both-parity encodings equal the reference encoding of the integer; malformed -> Err; literal -> refused or exactly its arbitrary-precision value (jsonnum). Byte fields/addresses/storage keys: prefix, even length, hex digits, exact sizes. Non-trivial: spelling other than a plain JSON integer or value >= 2^64; distinct by document.".into();
     ctx.assumptions = vec!["Rust's str::parse::<f64> is correctly rounded (used only inside the known-finding predicate)".into()];
     ctx.replay_known_and_regressions(&replay);
-    let n = ctx.tier.pick(60_000, 3_000_000);
+    let n = ctx.tier.pick(300_000, 5_000_000);
     ctx.run_prop("numbers", n, || crate::gen::tape(400).prop_map(gen_case), judge);
-    ctx.run_prop("bytes", ctx.tier.pick(10_000, 300_000), || crate::gen::tape(400).prop_map(gen_bytes_case), judge_bytes);
+    ctx.run_prop("bytes", ctx.tier.pick(50_000, 500_000), || crate::gen::tape(400).prop_map(gen_bytes_case), judge_bytes);
     crate::fuzz::run_for(ctx);
     // every field x well-formed spelling cell must have been hit
     for f in NUMERIC_FIELDS {
